@@ -12,6 +12,7 @@ import Blackbird.Lemmas.LexComment
 import Blackbird.Lemmas.LexSpace
 import Blackbird.Lemmas.LexNewline
 import Blackbird.Lemmas.LexTab
+import Blackbird.Lemmas.LexString
 
 namespace Blackbird
 
@@ -89,6 +90,20 @@ theorem C18_tab_or_four_spaces_one_tab (rest : List Char)
     bestRule lexRules ('\t' :: rest) = some (.TAB, false, 1) ∧
     bestRule lexRules (' ' :: ' ' :: ' ' :: ' ' :: rest) = some (.TAB, false, 4) :=
   ⟨bestRule_tab rest hr, bestRule_four_spaces rest hr⟩
+
+/-- **Inside a string literal nothing is layout**: from an opening quote to the next quote, over any
+characters other than a quote or a line end (spaces, tabs, `#`, keywords, non-ASCII text), the scanner
+emits ONE STR token carrying exactly that text, and continues behind the closing quote whatever
+follows. A `#` inside a string starts no comment; spaces inside a string are not skipped. -/
+theorem C18_string_literal_is_one_token (fuel : Nat) (body rest : List Char)
+    (hb : ∀ x ∈ body, x ≠ '"' ∧ x ≠ '\n' ∧ x ≠ '\r') (p : Pos) (acc : List Tok) :
+    lexGo lexRules (fuel + 1) ('"' :: (body ++ '"' :: rest)) p acc =
+      lexGo lexRules fuel rest (advance p ('"' :: (body ++ ['"'])))
+        (⟨.STR, String.ofList ('"' :: (body ++ ['"'])), p⟩ :: acc) :=
+  lexGo_string fuel body rest hb p acc
+
+example : (lex "G(\"a # b    c\") | 0").map (·.kind) = [.NAME, .LBRAC, .STR, .RBRAC, .APPLY, .INT, .EOF] := by
+  decide +kernel
 
 /-- non-vacuity: a comment with quotes, hashes and non-ASCII text before a CRLF -/
 example : (∀ x ∈ "\"q0\" # é | 1".toList, x ≠ '\n' ∧ x ≠ '\r') ∧
